@@ -49,6 +49,37 @@ func GenC08(seed uint64, i int) *world.Case {
 			last = "r2"
 		}
 	}
+	if g%6 == 1 {
+		// The Result of an earlier invocation consumed through a re-keyed VIEW of it
+		// (Prefixed), by a pipelined operator or by a shuffle: the new invocation's
+		// tasks start at the Result whatever wraps it.
+		bsp := gen.KVProgram(gr, "a")
+		bsp.Nodes = append(bsp.Nodes, spec.Node{Op: "map", Fn: "widen", M: gr.Pick(2, 3), In: []int{len(bsp.Nodes) - 1}})
+		bts, err := bsp.Types()
+		if err != nil {
+			panic(err)
+		}
+		bt := bts[bsp.Root()]
+		cons := &spec.Spec{Tag: "b", Nodes: []spec.Node{{Op: "arg", T: &bt}, {Op: "prefixed", M: 2, In: []int{0}}}}
+		switch gr.Intn(4) {
+		case 0:
+			cons.Nodes = append(cons.Nodes, spec.Node{Op: "map", Fn: "inc", M: 1, In: []int{1}})
+		case 1:
+			cons.Nodes = append(cons.Nodes, spec.Node{Op: "filter", M: 3, In: []int{1}}, spec.Node{Op: "reduce", Fn: "sum", In: []int{2}})
+		case 2:
+			cons.Nodes = append(cons.Nodes, spec.Node{Op: "reduce", Fn: "sum", In: []int{1}})
+		default:
+			cons.Nodes = append(cons.Nodes, spec.Node{Op: "flatmap", M: 2, In: []int{1}})
+		}
+		if _, err := cons.Types(); err != nil {
+			panic(fmt.Sprintf("C08 generator (prefixed result): %v", err))
+		}
+		script = []world.Step{
+			{Op: "run", ID: "r1", Func: "prog0", Spec: bsp, MustSucceed: true},
+			{Op: "run", ID: "r2", Func: "prog1", Spec: cons, Args: []string{"r1"}, MustSucceed: true},
+		}
+		last = "r2"
+	}
 	script = append(script, world.Step{Op: "scan", Of: last, MustSucceed: true})
 	s := seedFor(seed, "C08", i)
 	r := gen.New(s)
@@ -72,7 +103,7 @@ func C08(tier string, seed uint64) int {
 	}
 	b := &Batch{
 		Property: "C08", Tier: tier, Seed: seed, Level: "exploration",
-		Rule: fmt.Sprintf("generated programs (one invocation, or two with the second consuming the first's Result through pipelined or shuffling operators; shared sub-slices, custom partitioners, combiners with and without machine combiners) run in groups of %d separately started processes with different runtime (map/select order) seeds, delay seeds, executors and cluster shapes; in every run: well-formedness of the driver graph (acyclic, unique names, one root per result shard, one task per shard of each stage, shuffle wiring p->partition p of every producer shard with partition count == consumer shards, no pipelining across shuffle/Materialize/Result), driver graph == graph of every simulated worker that compiled the invocation, == recompilation on the driver, == recompilation after a gob round trip of the invocation; across the group: graph digests agree; distinct = distinct (ordered seam-event sequence, graph digest)", c08K),
+		Rule: fmt.Sprintf("generated programs (one invocation, or two with the second consuming the first's Result through pipelined or shuffling operators; shared sub-slices, a Result consumed through a Prefixed view by pipelined and shuffling operators, custom partitioners, combiners with and without machine combiners) run in groups of %d separately started processes with different runtime (map/select order) seeds, delay seeds, executors and cluster shapes; in every run: well-formedness of the driver graph (acyclic, unique names, one root per result shard, one task per shard of each stage, shuffle wiring p->partition p of every producer shard with partition count == consumer shards, no pipelining across shuffle/Materialize/Result), driver graph == graph of every simulated worker that compiled the invocation, == recompilation on the driver, == recompilation after a gob round trip of the invocation; across the group: graph digests agree; distinct = distinct (ordered seam-event sequence, graph digest)", c08K),
 		Gen:      func(i int) *world.Case { return GenC08(seed, i) },
 		N:        groups * c08K,
 		Budget:   budget,
